@@ -103,6 +103,9 @@ impl FlowGen {
                 bin(a, op, b)
             }
             5 => {
+                if self.rng.chance(1, 3) {
+                    return self.dict_yield_digest(ctx, d);
+                }
                 let l = self.list_expr(ctx, d - 1);
                 call("len", vec![l])
             }
@@ -317,6 +320,50 @@ impl FlowGen {
         (out, c)
     }
 
+    /// `for (...) yield k: v` builds a dictionary; observed through an order-insensitive digest
+    /// (number of keys, or the sum of the values), with `break`/`break value`/`continue` inside
+    fn dict_yield_digest(&mut self, ctx: &Ctx, d: usize) -> Ex {
+        self.feat("yield-item");
+        let (cl, mut inner) = self.clauses(ctx, d);
+        inner.loop_depth = ctx.loop_depth + 1;
+        let k = self.int_expr(&inner, 1);
+        let v = self.int_expr(&inner, 1);
+        let (k, v) = match self.rng.below(5) {
+            0 => {
+                // leave the loop early: the loop evaluates to the dictionary built so far
+                self.feat("yield-item-break");
+                let c = self.int_expr(&inner, 1);
+                (Ex::If(Box::new(c), Box::new(Ex::Break(0, None)), Some(Box::new(k))), v)
+            }
+            1 => {
+                // ... or to the break value
+                self.feat("yield-item-break-value");
+                let c = self.int_expr(&inner, 1);
+                let bv = Ex::Dict(None, vec![(int(7), Some(int(self.rng.range(0, 9))))]);
+                (k, Ex::If(Box::new(c), Box::new(Ex::Break(0, Some(Box::new(bv)))), Some(Box::new(v))))
+            }
+            2 => {
+                self.feat("yield-item-continue");
+                let c = self.int_expr(&inner, 1);
+                (Ex::If(Box::new(c), Box::new(Ex::Continue(0)), Some(Box::new(k))), v)
+            }
+            _ => (k, v),
+        };
+        // `into f` folds the values of each key separately
+        let into = if self.rng.chance(1, 4) {
+            self.feat("yield-item-into");
+            Some(var(*self.rng.pick(&["len", "sum", "first", "last"])))
+        } else {
+            None
+        };
+        let loop_ = Ex::For(cl, Box::new(ForBody::YieldItem(k, v, into)));
+        if self.rng.chance(1, 2) {
+            call("len", vec![loop_])
+        } else {
+            call("sum", vec![call("values", vec![loop_])])
+        }
+    }
+
     fn for_yield(&mut self, ctx: &Ctx, d: usize) -> Ex {
         let (cl, mut inner) = self.clauses(ctx, d);
         inner.loop_depth = ctx.loop_depth + 1;
@@ -529,7 +576,19 @@ impl FlowGen {
                 // try / catch / throw
                 self.feat("try");
                 let mut c1 = ctx.clone();
-                let mut body = self.seq_stmts(&mut c1, d - 1, 1, 2);
+                let mut body = Vec::new();
+                // a declaration at the start of the try body is visible in the handler (the body
+                // opens no scope of its own)
+                let mut seen_by_handler: Option<String> = None;
+                if self.rng.chance(1, 3) {
+                    self.feat("try-decl-read-in-handler");
+                    let t = self.fresh("x");
+                    // (a plain literal: the declaration itself cannot fail, so the handler may rely on it)
+                    body.push(declare(&t, int(self.rng.range(0, 9))));
+                    c1.ints.push(t.clone());
+                    seen_by_handler = Some(t);
+                }
+                body.extend(self.seq_stmts(&mut c1, d - 1, 1, 2));
                 if self.rng.chance(1, 2) {
                     self.feat("throw");
                     let c = self.int_expr(&c1, 1);
@@ -538,6 +597,9 @@ impl FlowGen {
                     body.extend(self.seq_stmts(&mut c1, d - 1, 0, 2));
                 }
                 let mut c2 = ctx.clone();
+                if let Some(t) = seen_by_handler {
+                    c2.ints.push(t);
+                }
                 let pat = if self.rng.chance(1, 5) {
                     // a literal pattern: other errors pass through
                     self.feat("catch-literal");
@@ -589,8 +651,19 @@ impl FlowGen {
                     arms.push((Lv::Lit(Box::new(int(self.rng.range(0, 3)))), b));
                 }
                 let mut c1 = ctx.clone();
-                let name = self.fresh("w");
-                c1.ints.push(name.clone());
+                // the binding arm's name is sometimes the name of an outer variable: inside the
+                // arm it is the arm's own variable, after the switch the outer one again
+                let outer_names: Vec<String> = ctx.consts.iter().chain(ctx.ints.iter()).cloned().collect();
+                let name = if !outer_names.is_empty() && self.rng.chance(1, 3) {
+                    self.feat("switch-arm-shadows-outer");
+                    self.rng.pick(&outer_names).clone()
+                } else {
+                    self.fresh("w")
+                };
+                c1.consts.retain(|x| x != &name);
+                if !c1.ints.contains(&name) {
+                    c1.ints.push(name.clone());
+                }
                 let b = Ex::Seq(self.seq_stmts(&mut c1, d - 1, 1, 0), false);
                 arms.push((lv(&name), b));
                 Ex::Switch(Box::new(scrut), arms)
